@@ -283,6 +283,19 @@ def cases(tier):
                 for layout in (LAYOUTS if not q else (LAYOUTS[0], LAYOUTS[3])):
                     yield idx, {'a': a, 'b': b, 'ds': ds, 'layout': list(layout)}
                     idx += 1
+    # lists holding the same container value more than once (the copies are distinct positions and get distinct edits)
+    inner = ([], [1], [1, 2]) if q else ([], [1], [1, 2], {'a': 1})
+    outer = []
+    for n in range(0, 4):
+        outer.extend(list(t) for t in itertools.product(inner, repeat=n))
+    for a in outer:
+        for b in outer:
+            for layout in (LAYOUTS[0], LAYOUTS[1]):
+                yield idx, {'a': a, 'b': b, 'ds': 'auto', 'layout': list(layout)}
+                idx += 1
+    # scalars that are equal as Python values and hash alike, but are different JSON (true / 1.0, false / 0.0);
+    # no int and no -0.0 among them: 1 vs 1.0 and 0.0 vs -0.0 are unspecified (C02)
+    spaces = spaces + [(DocSpace((True, 1.0, False, 0.0, 'a'), ('a',), 3), 4)]
     for space, bud in spaces:
         for a, b in space.pairs(bud):
             has_d = pairspace.has_dict(a) or pairspace.has_dict(b)
